@@ -86,7 +86,19 @@ def norm_exc(e):
 
 
 def _operand(dom, form, keyspecs, impl, valspecs=None):
-    """build the right-hand operand of update / in-place operators"""
+    """build the right-hand operand of update / in-place operators (with the
+    comparison hook of sim/keys.py switched off: faults belong to the
+    operation under test, not to the construction of its argument)"""
+    from .keys import HOOK
+    saved = HOOK.enabled
+    HOOK.enabled = False
+    try:
+        return _operand_(dom, form, keyspecs, impl, valspecs)
+    finally:
+        HOOK.enabled = saved
+
+
+def _operand_(dom, form, keyspecs, impl, valspecs=None):
     ks = [K(dom, k) for k in keyspecs]
     if form == "list":
         return list(ks)
@@ -109,6 +121,16 @@ def _operand(dom, form, keyspecs, impl, valspecs=None):
 
 
 def _pairs(dom, form, pairs, impl):
+    from .keys import HOOK
+    saved = HOOK.enabled
+    HOOK.enabled = False
+    try:
+        return _pairs_(dom, form, pairs, impl)
+    finally:
+        HOOK.enabled = saved
+
+
+def _pairs_(dom, form, pairs, impl):
     ps = [(K(dom, k), V(dom, v)) for k, v in pairs]
     if form == "list":
         return ps
